@@ -62,6 +62,9 @@ struct LoopCfg {
 	/// with index_loop: `for PAT in X` over an owned Vec `X` of Copy items: the element is bound by copy (`let PAT = X[i];`)
 	#[serde(default)]
 	by_copy: bool,
+	/// do not fail (exit 2) when the function no longer has this loop
+	#[serde(default)]
+	optional: bool,
 }
 
 #[derive(Deserialize, Clone, Debug, Default)]
@@ -94,6 +97,10 @@ struct ProofCfg {
 	text: String,
 	#[serde(default)]
 	mode: Option<String>,
+	/// skip this hint (instead of exit 2) when its anchor no longer exists: for hints attached to a construct whose
+	/// removal is itself a relevant change (the obligations then stand without the hint)
+	#[serde(default)]
+	optional: bool,
 }
 
 #[derive(Deserialize, Clone, Debug, Default)]
@@ -1372,6 +1379,7 @@ fn fn_edits(
 				.collect();
 			hits.sort();
 			if hits.len() < nth {
+				if p.optional { continue; }
 				die(&format!("{}: anchor statement `{}` #{} not found", name, pref, nth));
 			}
 			let (s, e) = hits[nth - 1];
@@ -1391,7 +1399,7 @@ fn fn_edits(
 					"body_end" => b.2,
 					x => die(&format!("bad pos {}", x)),
 				},
-				_ => die(&format!("{}: anchor loop {} not found", name, lo)),
+				_ => { if p.optional { continue; } die(&format!("{}: anchor loop {} not found", name, lo)) }
 			}
 		} else {
 			match p.pos.as_str() {
@@ -1414,6 +1422,7 @@ fn fn_edits(
 	}
 	// check every configured loop / closure ordinal exists
 	for l in cfg.loops.iter().filter(|_| stub.is_none()) {
+		if (l.ordinal == 0 || l.ordinal > v.loop_ord) && l.optional { continue; }
 		if l.ordinal == 0 || l.ordinal > v.loop_ord {
 			die(&format!("{}: loop ordinal {} not found (fn has {})", name, l.ordinal, v.loop_ord));
 		}
